@@ -597,7 +597,7 @@ func runC06(p *core.Prog, r *core.Report) {
 		dest := fn.Params[1]
 		for _, w := range []struct{ idx, list string }{{"BinaryIndex", "Binaries"}, {"PackageIndex", "PackageMeta"}} {
 			n, ok := 0, true
-			core.Instrs(fn, func(in ssa.Instruction) {
+			core.InstrsDeep(fn, func(in ssa.Instruction) { // (the shifting loops may sit in a helper that is handed the two offsets)
 				st, isSt := in.(*ssa.Store)
 				if !isSt {
 					return
@@ -615,7 +615,7 @@ func runC06(p *core.Prog, r *core.Report) {
 				}
 				good := false
 				for _, op := range []ssa.Value{bo.X, bo.Y} {
-					c, isC := core.SkipConv(op).(*ssa.Call)
+					c, isC := core.SkipConv(core.CallerValue(fn, core.SkipConv(op))).(*ssa.Call)
 					if !isC {
 						continue
 					}
@@ -965,7 +965,7 @@ func c06TransparentCarrier(p *core.Prog, cc *types.Func, depth int) *ssa.Functio
 			}
 			n := core.ObjName(cl)
 			switch {
-			case carriers[n], strings.Contains(n, ".Get"), n == "fmt.Errorf", n == "errors.New":
+			case carriers[n], strings.Contains(n, ".Get"), n == "fmt.Errorf", n == "errors.New", strings.HasPrefix(n, "sync."):
 			case depth > 0 && c06TransparentCarrier(p, cl, depth-1) != nil:
 			default:
 				ok = false
